@@ -33,6 +33,8 @@ def values(name, which):
         return [0.25, -0.35, 0.6][which]
     if name == "vcp":
         return np.array([[0.1, 0.3, -0.2, 0.45], [-0.3, 0.2, 0.5, -0.15], [0.4, -0.1, 0.05, 0.3]][which]).reshape(1, N + 1)
+    if name == "Tg":
+        return [1.3, 2.0, 2.6][which]       # guess of the free horizon as an argument (free-horizon variant only)
     raise KeyError(name)
 
 
@@ -72,6 +74,7 @@ def arg_expr(ocp, s, name):
     if name == "u": return ocp.sample(s["u"], grid="control-")[1]
     if name == "v": return ocp.value(s["v"])
     if name == "vcp": return ocp.sample(s["wv"], grid="control")[1]
+    if name == "Tg": return ocp.value(ocp.T)
 
 
 def assign(ocp, s, name, val):
@@ -83,6 +86,7 @@ def assign(ocp, s, name, val):
     elif name == "u": ocp.set_initial(s["u"], val)
     elif name == "v": ocp.set_initial(s["v"], val)
     elif name == "vcp": ocp.set_initial(s["wv"], val)
+    elif name == "Tg": ocp.set_initial(ocp.T, val)
 
 
 def results(ocp, s):
@@ -105,7 +109,7 @@ def cases(tier):
                         continue
                     out.append(dict(method=meth, M=M, budget=budget, args=list(args)))
             # free horizon with a user guess that is not among the arguments
-            for args in (["u"], ["pg"], ["v", "u"], ["vcp"]):
+            for args in (["u"], ["pg"], ["v", "u"], ["vcp"], ["Tg"], ["Tg", "u"], ["pg", "Tg"]):
                 out.append(dict(method=meth, M=M, budget=budget, args=args, variant="Tfree"))
     return out
 
@@ -168,7 +172,7 @@ def run_case(case):
             if g2.shape != w2.shape or not NL.close(g2, w2, tol):
                 vios.append(dict(sig="value:%s:%s" % (budget, nm), tags=tags, detail="F%s: %s = %s, pipeline gives %s" % (tuple(combo), nm, np.round(g2, 6).tolist(), np.round(w2, 6).tolist())))
                 break
-        if variant == "Tfree" and budget == "zero" and not vios:
+        if variant == "Tfree" and budget == "zero" and not vios and "Tg" not in args:
             # an argument that is not listed keeps its current value: the user's guess of T
             if not NL.close(np.atleast_2d(got[5]), np.array([[2.2]]), 1e-9):
                 vios.append(dict(sig="value:zero:unlisted-guess", tags=tags, detail="F starts from T=%s although the current guess of the (unlisted) free horizon is 2.2" % np.round(got[5], 6).tolist()))
@@ -180,6 +184,6 @@ def run_case(case):
 
 def describe(tier):
     return dict(
-        rule="strictly convex OCP (linear 2-state dynamics with a matrix and a vector parameter, a global and a per-interval parameter, a global variable, quadratic cost, N=3) x method {MS M=1/2, SS, DC M=1/2} x every ordered argument list of length <=%d over {value(global parameter), sampled per-interval parameter, concatenation vec(A);b of a matrix and a vector parameter, sampled state guess, sampled control guess, valued variable guess, sampled include_last variable guess}; a free-horizon variant with a user guess of T that is not an argument x the full product of a 3-value alphabet per argument x solver budget {converge (tol 1e-11), zero iterations (returns the start point: decides the initial-guess arguments)}: every output of F (sampled states, sampled controls, objective, variable) equals the result of a fresh OCP on which the same values are assigned with set_value / set_initial, solved, and read with sol.sample / sol.value" % (3 if tier == "thorough" else 2),
+        rule="strictly convex OCP (linear 2-state dynamics with a matrix and a vector parameter, a global and a per-interval parameter, a global variable, quadratic cost, N=3) x method {MS M=1/2, SS, DC M=1/2} x every ordered argument list of length <=%d over {value(global parameter), sampled per-interval parameter, concatenation vec(A);b of a matrix and a vector parameter, sampled state guess, sampled control guess, valued variable guess, sampled include_last variable guess}; a free-horizon variant with a user guess of T that is not an argument, or is one (value(T)) x the full product of a 3-value alphabet per argument x solver budget {converge (tol 1e-11), zero iterations (returns the start point: decides the initial-guess arguments)}: every output of F (sampled states, sampled controls, objective, variable) equals the result of a fresh OCP on which the same values are assigned with set_value / set_initial, solved, and read with sol.sample / sol.value" % (3 if tier == "thorough" else 2),
         bound="argument lists of length <=%d; 3 values per argument" % (3 if tier == "thorough" else 2),
         assumptions=["ipopt is deterministic for a fixed NLP and start point", "a non-converged 'converge' run is inconclusive (counted)"])
